@@ -31,8 +31,33 @@ def u3(run: Run, cy: CyProgram):
         {n for n, (t, _, _) in f.locals.items() if t.kind == "buffer"}
     arrays -= {n for n, t in f.args if t.kind == "buffer" and t.ndim == 3}
     written, problems = stale_work_arrays(outer[0].a[2], arrays)
+    def unconditional_stores(a):
+        """plain stores `a[<loop variables>] = v` of the per-series loop body that
+        are under loops only (no `if`)"""
+        out = []
+
+        def go(body, loopvars):
+            for st in body:
+                if st.k == "for":
+                    go(st.a[2], loopvars | {pp(st.a[0])})
+                elif st.k == "assign":
+                    for t in st.a[0]:
+                        if t.k == "index" and pp(t.a[0]) == a and all(
+                                pp(i_) in loopvars for i_ in t.a[1]):
+                            out.append(st)
+        go(outer[0].a[2], set())
+        return out
     for a in sorted(written):
         bad = [st for (x, st) in problems if x == a]
+        if bad and unconditional_stores(a):
+            # the buffer is (re)written by unconditional stores inside the loop
+            # nest, in an order the coverage argument does not follow (fused
+            # initialisation and use, peeled diagonal)
+            run.unknowns.append(f"U3: _twins_s: `{a}` is written by unconditional stores "
+                                f"at {f.module.relpath}:{unconditional_stores(a)[0].line} "
+                                f"whose coverage of the buffer is not established")
+            run.oblige("U3", f"_twins_s:{a}", True, nontrivial=False)
+            continue
         run.oblige("U3", f"_twins_s:{a}", not bad, sample={"where": f.where})
         for st in bad[:1]:
             run.add("U3", f"_twins_s/{a}", f"{f.module.relpath}:{st.line}",
